@@ -1,92 +1,92 @@
 (* Gen/GenMapRange.v — GENERATED on every run of ./check C02 from the .go files of the package
    by harness/cmd/c02 (-extract-mapranges); do not edit.  Every `for ... range <map>` loop:
-   (file, function, ranged expression, occurrence), one entry per loop; an operand
+   (file, function, ranged expression, occurrence, hash of the loop body), one entry per loop; an operand
    whose type is not known here (it comes from an imported package) is listed as `?untyped: ...`. *)
 From AL Require Import Base.Str.
 
 (* the last component numbers the loops of one function over the same expression in source order *)
-Definition map_range_sites : list (string * string * string * N) := [
-  ("ast.go", "RawYAMLObject.Equals", "o.Props", 0%N);
-  ("ast.go", "RawYAMLObject.String", "o.Props", 0%N);
-  ("config.go", "Config.PathConfigs", "cfg.Paths", 0%N);
-  ("config.go", "IgnorePatterns.UnmarshalYAML", "?untyped: n.Content", 0%N);
-  ("error.go", "NewErrorFormatter", "r", 0%N);
-  ("error.go", "toPascalCase", "?untyped: s", 0%N);
-  ("error.go", "toPascalCase", "?untyped: ss", 0%N);
-  ("expr_insecure.go", "UntrustedInputChecker.onObjectFilter", "cur.Children", 0%N);
-  ("expr_sema.go", "ExprSemanticsChecker.UpdateDispatchInputs", "ty.Props", 0%N);
-  ("expr_sema.go", "ExprSemanticsChecker.UpdateSecrets", "ty.Props", 0%N);
-  ("expr_sema.go", "ExprSemanticsChecker.checkArrayDeref", "ty.Props", 0%N);
-  ("expr_sema.go", "ExprSemanticsChecker.checkBuiltinFuncCall", "holders", 0%N);
-  ("expr_sema.go", "ExprSemanticsChecker.checkFuncCall", "sema.funcs", 0%N);
-  ("expr_sema.go", "ExprSemanticsChecker.checkVariable", "sema.vars", 0%N);
-  ("expr_sema.go", "ExprSemanticsChecker.ensureVarsCopied", "sema.vars", 0%N);
-  ("expr_type.go", "ObjectType.Assignable", "other.Props", 0%N);
-  ("expr_type.go", "ObjectType.Assignable", "other.Props", 1%N);
-  ("expr_type.go", "ObjectType.Assignable", "ty.Props", 0%N);
-  ("expr_type.go", "ObjectType.DeepCopy", "ty.Props", 0%N);
-  ("expr_type.go", "ObjectType.Merge", "other.Props", 0%N);
-  ("expr_type.go", "ObjectType.Merge", "ty.Props", 0%N);
-  ("expr_type.go", "ObjectType.String", "ty.Props", 0%N);
-  ("expr_type.go", "typeOfJSONValue", "v", 0%N);
-  ("parse.go", "handleYAMLError", "?untyped: te.Errors", 0%N);
-  ("parse.go", "parser.parseEvents", "?untyped: n.Content", 0%N);
-  ("parse.go", "parser.parseMatrix", "?untyped: kv.val.Content", 0%N);
-  ("parse.go", "parser.parseMatrixCombinations", "?untyped: n.Content", 0%N);
-  ("parse.go", "parser.parseRawYAMLValue", "?untyped: n.Content", 0%N);
-  ("parse.go", "parser.parseScheduleEvent", "?untyped: n.Content", 0%N);
-  ("parse.go", "parser.parseSteps", "?untyped: n.Content", 0%N);
-  ("parse.go", "parser.parseStringSequence", "?untyped: n.Content", 0%N);
-  ("pass.go", "Visitor.Visit", "n.Jobs", 0%N);
-  ("reusable_workflow.go", "LocalReusableWorkflowCache.WriteWorkflowCallEvent", "event.Outputs", 0%N);
-  ("reusable_workflow.go", "LocalReusableWorkflowCache.WriteWorkflowCallEvent", "event.Secrets", 0%N);
-  ("reusable_workflow.go", "parseReusableWorkflowMetadata", "?untyped: n.Content", 0%N);
-  ("rule_action.go", "RuleAction.checkAction", "exec.Inputs", 0%N);
-  ("rule_action.go", "RuleAction.checkAction", "meta.Inputs", 0%N);
-  ("rule_action.go", "RuleAction.checkAction", "meta.Inputs", 1%N);
-  ("rule_action.go", "RuleAction.checkAction", "meta.Inputs", 2%N);
-  ("rule_credentials.go", "RuleCredentials.VisitJobPre", "n.Services.Value", 0%N);
-  ("rule_deprecated_commands.go", "RuleDeprecatedCommands.VisitStep", "?untyped: deprecatedCommandsPattern.FindAllStringSubmatch(r.Run.Value, -1)", 0%N);
-  ("rule_env_var.go", "RuleEnvVar.VisitJobPre", "n.Services.Value", 0%N);
-  ("rule_env_var.go", "RuleEnvVar.checkEnv", "env.Vars", 0%N);
-  ("rule_events.go", "RuleEvents.checkWorkflowDispatchEvent", "event.Inputs", 0%N);
-  ("rule_expression.go", "RuleExpression.VisitJobPost", "n.Outputs", 0%N);
-  ("rule_expression.go", "RuleExpression.VisitJobPre", "n.Services.Value", 0%N);
-  ("rule_expression.go", "RuleExpression.VisitStep", "e.Inputs", 0%N);
-  ("rule_expression.go", "RuleExpression.VisitWorkflowPre", "e.Inputs", 0%N);
-  ("rule_expression.go", "RuleExpression.VisitWorkflowPre", "e.Outputs", 0%N);
-  ("rule_expression.go", "RuleExpression.VisitWorkflowPre", "e.Secrets", 0%N);
-  ("rule_expression.go", "RuleExpression.checkEnv", "env.Vars", 0%N);
-  ("rule_expression.go", "RuleExpression.checkMatrix", "combi.Assigns", 0%N);
-  ("rule_expression.go", "RuleExpression.checkMatrix", "combi.Assigns", 1%N);
-  ("rule_expression.go", "RuleExpression.checkMatrix", "m.Rows", 0%N);
-  ("rule_expression.go", "RuleExpression.checkMatrix", "merged.Props", 0%N);
-  ("rule_expression.go", "RuleExpression.checkMatrixExpression", "matTy.Props", 0%N);
-  ("rule_expression.go", "RuleExpression.checkMatrixExpression", "o.Props", 0%N);
-  ("rule_expression.go", "RuleExpression.checkRawYAMLValue", "v.Props", 0%N);
-  ("rule_expression.go", "RuleExpression.checkWorkflowCall", "c.Inputs", 0%N);
-  ("rule_expression.go", "RuleExpression.checkWorkflowCall", "c.Secrets", 0%N);
-  ("rule_expression.go", "RuleExpression.checkWorkflowCallOutputs", "j.Outputs", 0%N);
-  ("rule_expression.go", "RuleExpression.checkWorkflowCallOutputs", "jobs", 0%N);
-  ("rule_expression.go", "RuleExpression.checkWorkflowCallOutputs", "outputs", 0%N);
-  ("rule_expression.go", "RuleExpression.getWorkflowCallOutputsType", "m.Outputs", 0%N);
-  ("rule_expression.go", "RuleExpression.populateDependantNeedsTypes", "j.Outputs", 0%N);
-  ("rule_expression.go", "typeOfActionOutputs", "meta.Outputs", 0%N);
-  ("rule_job_needs.go", "RuleJobNeeds.VisitWorkflowPost", "edges", 0%N);
-  ("rule_job_needs.go", "RuleJobNeeds.VisitWorkflowPost", "rule.nodes", 0%N);
-  ("rule_job_needs.go", "detectFirstCycle", "nodes", 0%N);
-  ("rule_matrix.go", "RuleMatrix.VisitJobPre", "m.Rows", 0%N);
-  ("rule_matrix.go", "RuleMatrix.checkExclude", "c.Assigns", 0%N);
-  ("rule_matrix.go", "RuleMatrix.checkExclude", "c.Assigns", 1%N);
-  ("rule_matrix.go", "RuleMatrix.checkExclude", "m.Rows", 0%N);
-  ("rule_matrix.go", "RuleMatrix.checkExclude", "rows", 0%N);
-  ("rule_matrix.go", "isYAMLValueSubset", "sub.Props", 0%N);
-  ("rule_permissions.go", "RulePermissions.checkPermissions", "allPermissionScopes", 0%N);
-  ("rule_permissions.go", "RulePermissions.checkPermissions", "p.Scopes", 0%N);
-  ("rule_runner_label.go", "RuleRunnerLabel.checkConflict", "rule.compats", 0%N);
-  ("rule_workflow_call.go", "RuleWorkflowCall.checkWorkflowCallUsesLocal", "call.Inputs", 0%N);
-  ("rule_workflow_call.go", "RuleWorkflowCall.checkWorkflowCallUsesLocal", "call.Secrets", 0%N);
-  ("rule_workflow_call.go", "RuleWorkflowCall.checkWorkflowCallUsesLocal", "m.Inputs", 0%N);
-  ("rule_workflow_call.go", "RuleWorkflowCall.checkWorkflowCallUsesLocal", "m.Secrets", 0%N);
-  ("rule_workflow_call.go", "sortedMapKeys", "m", 0%N)
+Definition map_range_sites : list (string * string * string * N * string) := [
+  ("ast.go", "RawYAMLObject.Equals", "o.Props", 0%N, "3632aeb6");
+  ("ast.go", "RawYAMLObject.String", "o.Props", 0%N, "494d9e57");
+  ("config.go", "Config.PathConfigs", "cfg.Paths", 0%N, "51551126");
+  ("config.go", "IgnorePatterns.UnmarshalYAML", "?untyped: n.Content", 0%N, "-");
+  ("error.go", "NewErrorFormatter", "r", 0%N, "ed997a5c");
+  ("error.go", "toPascalCase", "?untyped: s", 0%N, "-");
+  ("error.go", "toPascalCase", "?untyped: ss", 0%N, "-");
+  ("expr_insecure.go", "UntrustedInputChecker.onObjectFilter", "cur.Children", 0%N, "44e91f8c");
+  ("expr_sema.go", "ExprSemanticsChecker.UpdateDispatchInputs", "ty.Props", 0%N, "97bb5cb9");
+  ("expr_sema.go", "ExprSemanticsChecker.UpdateSecrets", "ty.Props", 0%N, "6cdbce94");
+  ("expr_sema.go", "ExprSemanticsChecker.checkArrayDeref", "ty.Props", 0%N, "51186f54");
+  ("expr_sema.go", "ExprSemanticsChecker.checkBuiltinFuncCall", "holders", 0%N, "7ff1a9f8");
+  ("expr_sema.go", "ExprSemanticsChecker.checkFuncCall", "sema.funcs", 0%N, "89753c73");
+  ("expr_sema.go", "ExprSemanticsChecker.checkVariable", "sema.vars", 0%N, "89753c73");
+  ("expr_sema.go", "ExprSemanticsChecker.ensureVarsCopied", "sema.vars", 0%N, "ebe29899");
+  ("expr_type.go", "ObjectType.Assignable", "other.Props", 0%N, "d1160a1e");
+  ("expr_type.go", "ObjectType.Assignable", "other.Props", 1%N, "70d65860");
+  ("expr_type.go", "ObjectType.Assignable", "ty.Props", 0%N, "1376b96f");
+  ("expr_type.go", "ObjectType.DeepCopy", "ty.Props", 0%N, "0e72bd62");
+  ("expr_type.go", "ObjectType.Merge", "other.Props", 0%N, "360eab31");
+  ("expr_type.go", "ObjectType.Merge", "ty.Props", 0%N, "9526b5f8");
+  ("expr_type.go", "ObjectType.String", "ty.Props", 0%N, "448f0f8b");
+  ("expr_type.go", "typeOfJSONValue", "v", 0%N, "942287a2");
+  ("parse.go", "handleYAMLError", "?untyped: te.Errors", 0%N, "-");
+  ("parse.go", "parser.parseEvents", "?untyped: n.Content", 0%N, "-");
+  ("parse.go", "parser.parseMatrix", "?untyped: kv.val.Content", 0%N, "-");
+  ("parse.go", "parser.parseMatrixCombinations", "?untyped: n.Content", 0%N, "-");
+  ("parse.go", "parser.parseRawYAMLValue", "?untyped: n.Content", 0%N, "-");
+  ("parse.go", "parser.parseScheduleEvent", "?untyped: n.Content", 0%N, "-");
+  ("parse.go", "parser.parseSteps", "?untyped: n.Content", 0%N, "-");
+  ("parse.go", "parser.parseStringSequence", "?untyped: n.Content", 0%N, "-");
+  ("pass.go", "Visitor.Visit", "n.Jobs", 0%N, "7ce2eff7");
+  ("reusable_workflow.go", "LocalReusableWorkflowCache.WriteWorkflowCallEvent", "event.Outputs", 0%N, "f75ee667");
+  ("reusable_workflow.go", "LocalReusableWorkflowCache.WriteWorkflowCallEvent", "event.Secrets", 0%N, "7b25a65f");
+  ("reusable_workflow.go", "parseReusableWorkflowMetadata", "?untyped: n.Content", 0%N, "-");
+  ("rule_action.go", "RuleAction.checkAction", "exec.Inputs", 0%N, "7847db3a");
+  ("rule_action.go", "RuleAction.checkAction", "meta.Inputs", 0%N, "da536ae3");
+  ("rule_action.go", "RuleAction.checkAction", "meta.Inputs", 1%N, "4ea7a1be");
+  ("rule_action.go", "RuleAction.checkAction", "meta.Inputs", 2%N, "9847eb36");
+  ("rule_credentials.go", "RuleCredentials.VisitJobPre", "n.Services.Value", 0%N, "c42780df");
+  ("rule_deprecated_commands.go", "RuleDeprecatedCommands.VisitStep", "?untyped: deprecatedCommandsPattern.FindAllStringSubmatch(r.Run.Value, -1)", 0%N, "-");
+  ("rule_env_var.go", "RuleEnvVar.VisitJobPre", "n.Services.Value", 0%N, "61a0adc4");
+  ("rule_env_var.go", "RuleEnvVar.checkEnv", "env.Vars", 0%N, "32ae5842");
+  ("rule_events.go", "RuleEvents.checkWorkflowDispatchEvent", "event.Inputs", 0%N, "b4e75c58");
+  ("rule_expression.go", "RuleExpression.VisitJobPost", "n.Outputs", 0%N, "71409529");
+  ("rule_expression.go", "RuleExpression.VisitJobPre", "n.Services.Value", 0%N, "6591cc09");
+  ("rule_expression.go", "RuleExpression.VisitStep", "e.Inputs", 0%N, "e03a7e8d");
+  ("rule_expression.go", "RuleExpression.VisitWorkflowPre", "e.Inputs", 0%N, "981574aa");
+  ("rule_expression.go", "RuleExpression.VisitWorkflowPre", "e.Outputs", 0%N, "a5e1850e");
+  ("rule_expression.go", "RuleExpression.VisitWorkflowPre", "e.Secrets", 0%N, "9c5efeae");
+  ("rule_expression.go", "RuleExpression.checkEnv", "env.Vars", 0%N, "3197e653");
+  ("rule_expression.go", "RuleExpression.checkMatrix", "combi.Assigns", 0%N, "7aeaa4d0");
+  ("rule_expression.go", "RuleExpression.checkMatrix", "combi.Assigns", 1%N, "5249e955");
+  ("rule_expression.go", "RuleExpression.checkMatrix", "m.Rows", 0%N, "bf35e80d");
+  ("rule_expression.go", "RuleExpression.checkMatrix", "merged.Props", 0%N, "4823410c");
+  ("rule_expression.go", "RuleExpression.checkMatrixExpression", "matTy.Props", 0%N, "4823410c");
+  ("rule_expression.go", "RuleExpression.checkMatrixExpression", "o.Props", 0%N, "63b6238b");
+  ("rule_expression.go", "RuleExpression.checkRawYAMLValue", "v.Props", 0%N, "488f7c1f");
+  ("rule_expression.go", "RuleExpression.checkWorkflowCall", "c.Inputs", 0%N, "85c53756");
+  ("rule_expression.go", "RuleExpression.checkWorkflowCall", "c.Secrets", 0%N, "a5de8f72");
+  ("rule_expression.go", "RuleExpression.checkWorkflowCallOutputs", "j.Outputs", 0%N, "97bb5cb9");
+  ("rule_expression.go", "RuleExpression.checkWorkflowCallOutputs", "jobs", 0%N, "a1edf340");
+  ("rule_expression.go", "RuleExpression.checkWorkflowCallOutputs", "outputs", 0%N, "815c5338");
+  ("rule_expression.go", "RuleExpression.getWorkflowCallOutputsType", "m.Outputs", 0%N, "97bb5cb9");
+  ("rule_expression.go", "RuleExpression.populateDependantNeedsTypes", "j.Outputs", 0%N, "49d80564");
+  ("rule_expression.go", "typeOfActionOutputs", "meta.Outputs", 0%N, "5f3f4e08");
+  ("rule_job_needs.go", "RuleJobNeeds.VisitWorkflowPost", "edges", 0%N, "d6904da7");
+  ("rule_job_needs.go", "RuleJobNeeds.VisitWorkflowPost", "rule.nodes", 0%N, "fba81a7b");
+  ("rule_job_needs.go", "detectFirstCycle", "nodes", 0%N, "4745d5bb");
+  ("rule_matrix.go", "RuleMatrix.VisitJobPre", "m.Rows", 0%N, "09680204");
+  ("rule_matrix.go", "RuleMatrix.checkExclude", "c.Assigns", 0%N, "7979c51b");
+  ("rule_matrix.go", "RuleMatrix.checkExclude", "c.Assigns", 1%N, "7eac8842");
+  ("rule_matrix.go", "RuleMatrix.checkExclude", "m.Rows", 0%N, "43bc1462");
+  ("rule_matrix.go", "RuleMatrix.checkExclude", "rows", 0%N, "fd741afe");
+  ("rule_matrix.go", "isYAMLValueSubset", "sub.Props", 0%N, "edfdfa69");
+  ("rule_permissions.go", "RulePermissions.checkPermissions", "allPermissionScopes", 0%N, "23fa98f6");
+  ("rule_permissions.go", "RulePermissions.checkPermissions", "p.Scopes", 0%N, "ecf1e1c9");
+  ("rule_runner_label.go", "RuleRunnerLabel.checkConflict", "rule.compats", 0%N, "7b209986");
+  ("rule_workflow_call.go", "RuleWorkflowCall.checkWorkflowCallUsesLocal", "call.Inputs", 0%N, "3a150f0f");
+  ("rule_workflow_call.go", "RuleWorkflowCall.checkWorkflowCallUsesLocal", "call.Secrets", 0%N, "15559ed1");
+  ("rule_workflow_call.go", "RuleWorkflowCall.checkWorkflowCallUsesLocal", "m.Inputs", 0%N, "153576bb");
+  ("rule_workflow_call.go", "RuleWorkflowCall.checkWorkflowCallUsesLocal", "m.Secrets", 0%N, "cbf2d7f5");
+  ("rule_workflow_call.go", "sortedMapKeys", "m", 0%N, "18c5873e")
 ].
